@@ -399,6 +399,12 @@ func (w *World) Shutdown() error {
 	w.Sim.SetLabel("shutdown")
 	w.Sim.OpenGates(true)
 	w.ReleaseAll()
+	if w.Cfg.JailTime > 0 {
+		// a LOGIN held in the login jail keeps the backend's user lock until the jail
+		// timer fires: let simulated time pass, as real time would
+		time.Sleep(w.Cfg.JailTime + time.Second)
+		w.Quiesce()
+	}
 	w.CloseClients()
 	w.L.Close()
 	err := w.Srv.Close(w.ctx)
